@@ -278,7 +278,7 @@ fn nth_string(mut idx: u64, len: usize) -> String {
 }
 
 pub fn run(ctx: &Ctx) -> i32 {
-    let n = ctx.tier.pick(2, 3);
+    let n = ctx.tier.pick(3, 4);
     let mut acc = Acc::new();
     for len in 1..=n {
         let total = (ALPHA.len() as u64).pow(len as u32) * SITES.len() as u64;
